@@ -178,6 +178,15 @@ func altValues(fam string, seed int64, tier string) []interface{} {
 			[]interface{}{zoo.NamedMap{"k": 1}, []int32{1}, zoo.NamedMap{"j": 2}, []int32{2}})
 		vs = append(vs, &zoo.Node{Name: "d", A: sh, B: sh}, &zoo.Node{Name: "m", M: map[string]*zoo.Node{"k": sh}, L: []*zoo.Node{sh}})
 		return vs
+	case "c09": // strings and binaries in every position: every legal chunking (empty chunks included) is enumerated by TLC
+		var vs []interface{}
+		for _, s := range []string{"", "a", "é", "ab", "a€b", "😀x", "abc", "\ufffd", "a\ufffdcd"} {
+			vs = append(vs, s, []string{s, "z"}, map[string]string{s: s}, zoo.HStr{V: s})
+		}
+		for _, b := range [][]byte{{}, {1}, {1, 2, 3}, {1, 2, 3, 4, 5}} {
+			vs = append(vs, b, []interface{}{b, b}, map[string][]byte{"k": b}, zoo.HBin{V: b})
+		}
+		return vs
 	case "rand": // seeded values; TLC draws the encoding choices (simulation)
 		n := 150
 		if th {
